@@ -55,6 +55,8 @@ Record pfacts := {
   pf_writer_err_handled : bool;  (* a failed flush is not unwrapped/expected in the writer path *)
   pf_view_err_handled : bool;    (* a view write error becomes a Fatal message *)
   pf_stats_stdout_handled : bool;(* statistics to a closed stdout do not panic *)
+  pf_handler_own_counter : bool; (* the signal handler exits the process only on ITS second call (own counter), never because
+                                    the stop flag is already up *)
   pf_dcap : nat;                 (* capacity of the data channel *)
   pf_vcap_min : nat              (* smallest capacity of a validator channel *)
 }.
@@ -80,52 +82,59 @@ Record state := {
   s_c : cpc;
   s_errs : nat;
   s_fatal : bool;
-  s_panic : bool
+  s_panic : bool;
+  s_sigs : nat;
+  s_hardexit : bool
 }.
 
 Definition set_stop (x : bool) (s : state) : state :=
-  {| s_cfg := s_cfg s; s_stop := x; s_open := s_open s; s_input := s_input s; s_lstop := s_lstop s; s_r := s_r s; s_dq := s_dq s; s_mrecv := s_mrecv s; s_a := s_a s; s_alive := s_alive s; s_vs := s_vs s; s_w := s_w s; s_wbuf := s_wbuf s; s_wout := s_wout s; s_iq := s_iq s; s_sq := s_sq s; s_m := s_m s; s_c := s_c s; s_errs := s_errs s; s_fatal := s_fatal s; s_panic := s_panic s |}.
+  {| s_cfg := s_cfg s; s_stop := x; s_open := s_open s; s_input := s_input s; s_lstop := s_lstop s; s_r := s_r s; s_dq := s_dq s; s_mrecv := s_mrecv s; s_a := s_a s; s_alive := s_alive s; s_vs := s_vs s; s_w := s_w s; s_wbuf := s_wbuf s; s_wout := s_wout s; s_iq := s_iq s; s_sq := s_sq s; s_m := s_m s; s_c := s_c s; s_errs := s_errs s; s_fatal := s_fatal s; s_panic := s_panic s; s_sigs := s_sigs s; s_hardexit := s_hardexit s |}.
 Definition set_open (x : bool) (s : state) : state :=
-  {| s_cfg := s_cfg s; s_stop := s_stop s; s_open := x; s_input := s_input s; s_lstop := s_lstop s; s_r := s_r s; s_dq := s_dq s; s_mrecv := s_mrecv s; s_a := s_a s; s_alive := s_alive s; s_vs := s_vs s; s_w := s_w s; s_wbuf := s_wbuf s; s_wout := s_wout s; s_iq := s_iq s; s_sq := s_sq s; s_m := s_m s; s_c := s_c s; s_errs := s_errs s; s_fatal := s_fatal s; s_panic := s_panic s |}.
+  {| s_cfg := s_cfg s; s_stop := s_stop s; s_open := x; s_input := s_input s; s_lstop := s_lstop s; s_r := s_r s; s_dq := s_dq s; s_mrecv := s_mrecv s; s_a := s_a s; s_alive := s_alive s; s_vs := s_vs s; s_w := s_w s; s_wbuf := s_wbuf s; s_wout := s_wout s; s_iq := s_iq s; s_sq := s_sq s; s_m := s_m s; s_c := s_c s; s_errs := s_errs s; s_fatal := s_fatal s; s_panic := s_panic s; s_sigs := s_sigs s; s_hardexit := s_hardexit s |}.
 Definition set_input (x : list batch) (s : state) : state :=
-  {| s_cfg := s_cfg s; s_stop := s_stop s; s_open := s_open s; s_input := x; s_lstop := s_lstop s; s_r := s_r s; s_dq := s_dq s; s_mrecv := s_mrecv s; s_a := s_a s; s_alive := s_alive s; s_vs := s_vs s; s_w := s_w s; s_wbuf := s_wbuf s; s_wout := s_wout s; s_iq := s_iq s; s_sq := s_sq s; s_m := s_m s; s_c := s_c s; s_errs := s_errs s; s_fatal := s_fatal s; s_panic := s_panic s |}.
+  {| s_cfg := s_cfg s; s_stop := s_stop s; s_open := s_open s; s_input := x; s_lstop := s_lstop s; s_r := s_r s; s_dq := s_dq s; s_mrecv := s_mrecv s; s_a := s_a s; s_alive := s_alive s; s_vs := s_vs s; s_w := s_w s; s_wbuf := s_wbuf s; s_wout := s_wout s; s_iq := s_iq s; s_sq := s_sq s; s_m := s_m s; s_c := s_c s; s_errs := s_errs s; s_fatal := s_fatal s; s_panic := s_panic s; s_sigs := s_sigs s; s_hardexit := s_hardexit s |}.
 Definition set_lstop (x : bool) (s : state) : state :=
-  {| s_cfg := s_cfg s; s_stop := s_stop s; s_open := s_open s; s_input := s_input s; s_lstop := x; s_r := s_r s; s_dq := s_dq s; s_mrecv := s_mrecv s; s_a := s_a s; s_alive := s_alive s; s_vs := s_vs s; s_w := s_w s; s_wbuf := s_wbuf s; s_wout := s_wout s; s_iq := s_iq s; s_sq := s_sq s; s_m := s_m s; s_c := s_c s; s_errs := s_errs s; s_fatal := s_fatal s; s_panic := s_panic s |}.
+  {| s_cfg := s_cfg s; s_stop := s_stop s; s_open := s_open s; s_input := s_input s; s_lstop := x; s_r := s_r s; s_dq := s_dq s; s_mrecv := s_mrecv s; s_a := s_a s; s_alive := s_alive s; s_vs := s_vs s; s_w := s_w s; s_wbuf := s_wbuf s; s_wout := s_wout s; s_iq := s_iq s; s_sq := s_sq s; s_m := s_m s; s_c := s_c s; s_errs := s_errs s; s_fatal := s_fatal s; s_panic := s_panic s; s_sigs := s_sigs s; s_hardexit := s_hardexit s |}.
 Definition set_r (x : rpc) (s : state) : state :=
-  {| s_cfg := s_cfg s; s_stop := s_stop s; s_open := s_open s; s_input := s_input s; s_lstop := s_lstop s; s_r := x; s_dq := s_dq s; s_mrecv := s_mrecv s; s_a := s_a s; s_alive := s_alive s; s_vs := s_vs s; s_w := s_w s; s_wbuf := s_wbuf s; s_wout := s_wout s; s_iq := s_iq s; s_sq := s_sq s; s_m := s_m s; s_c := s_c s; s_errs := s_errs s; s_fatal := s_fatal s; s_panic := s_panic s |}.
+  {| s_cfg := s_cfg s; s_stop := s_stop s; s_open := s_open s; s_input := s_input s; s_lstop := s_lstop s; s_r := x; s_dq := s_dq s; s_mrecv := s_mrecv s; s_a := s_a s; s_alive := s_alive s; s_vs := s_vs s; s_w := s_w s; s_wbuf := s_wbuf s; s_wout := s_wout s; s_iq := s_iq s; s_sq := s_sq s; s_m := s_m s; s_c := s_c s; s_errs := s_errs s; s_fatal := s_fatal s; s_panic := s_panic s; s_sigs := s_sigs s; s_hardexit := s_hardexit s |}.
 Definition set_dq (x : list batch) (s : state) : state :=
-  {| s_cfg := s_cfg s; s_stop := s_stop s; s_open := s_open s; s_input := s_input s; s_lstop := s_lstop s; s_r := s_r s; s_dq := x; s_mrecv := s_mrecv s; s_a := s_a s; s_alive := s_alive s; s_vs := s_vs s; s_w := s_w s; s_wbuf := s_wbuf s; s_wout := s_wout s; s_iq := s_iq s; s_sq := s_sq s; s_m := s_m s; s_c := s_c s; s_errs := s_errs s; s_fatal := s_fatal s; s_panic := s_panic s |}.
+  {| s_cfg := s_cfg s; s_stop := s_stop s; s_open := s_open s; s_input := s_input s; s_lstop := s_lstop s; s_r := s_r s; s_dq := x; s_mrecv := s_mrecv s; s_a := s_a s; s_alive := s_alive s; s_vs := s_vs s; s_w := s_w s; s_wbuf := s_wbuf s; s_wout := s_wout s; s_iq := s_iq s; s_sq := s_sq s; s_m := s_m s; s_c := s_c s; s_errs := s_errs s; s_fatal := s_fatal s; s_panic := s_panic s; s_sigs := s_sigs s; s_hardexit := s_hardexit s |}.
 Definition set_mrecv (x : bool) (s : state) : state :=
-  {| s_cfg := s_cfg s; s_stop := s_stop s; s_open := s_open s; s_input := s_input s; s_lstop := s_lstop s; s_r := s_r s; s_dq := s_dq s; s_mrecv := x; s_a := s_a s; s_alive := s_alive s; s_vs := s_vs s; s_w := s_w s; s_wbuf := s_wbuf s; s_wout := s_wout s; s_iq := s_iq s; s_sq := s_sq s; s_m := s_m s; s_c := s_c s; s_errs := s_errs s; s_fatal := s_fatal s; s_panic := s_panic s |}.
+  {| s_cfg := s_cfg s; s_stop := s_stop s; s_open := s_open s; s_input := s_input s; s_lstop := s_lstop s; s_r := s_r s; s_dq := s_dq s; s_mrecv := x; s_a := s_a s; s_alive := s_alive s; s_vs := s_vs s; s_w := s_w s; s_wbuf := s_wbuf s; s_wout := s_wout s; s_iq := s_iq s; s_sq := s_sq s; s_m := s_m s; s_c := s_c s; s_errs := s_errs s; s_fatal := s_fatal s; s_panic := s_panic s; s_sigs := s_sigs s; s_hardexit := s_hardexit s |}.
 Definition set_a (x : apc) (s : state) : state :=
-  {| s_cfg := s_cfg s; s_stop := s_stop s; s_open := s_open s; s_input := s_input s; s_lstop := s_lstop s; s_r := s_r s; s_dq := s_dq s; s_mrecv := s_mrecv s; s_a := x; s_alive := s_alive s; s_vs := s_vs s; s_w := s_w s; s_wbuf := s_wbuf s; s_wout := s_wout s; s_iq := s_iq s; s_sq := s_sq s; s_m := s_m s; s_c := s_c s; s_errs := s_errs s; s_fatal := s_fatal s; s_panic := s_panic s |}.
+  {| s_cfg := s_cfg s; s_stop := s_stop s; s_open := s_open s; s_input := s_input s; s_lstop := s_lstop s; s_r := s_r s; s_dq := s_dq s; s_mrecv := s_mrecv s; s_a := x; s_alive := s_alive s; s_vs := s_vs s; s_w := s_w s; s_wbuf := s_wbuf s; s_wout := s_wout s; s_iq := s_iq s; s_sq := s_sq s; s_m := s_m s; s_c := s_c s; s_errs := s_errs s; s_fatal := s_fatal s; s_panic := s_panic s; s_sigs := s_sigs s; s_hardexit := s_hardexit s |}.
 Definition set_alive (x : bool) (s : state) : state :=
-  {| s_cfg := s_cfg s; s_stop := s_stop s; s_open := s_open s; s_input := s_input s; s_lstop := s_lstop s; s_r := s_r s; s_dq := s_dq s; s_mrecv := s_mrecv s; s_a := s_a s; s_alive := x; s_vs := s_vs s; s_w := s_w s; s_wbuf := s_wbuf s; s_wout := s_wout s; s_iq := s_iq s; s_sq := s_sq s; s_m := s_m s; s_c := s_c s; s_errs := s_errs s; s_fatal := s_fatal s; s_panic := s_panic s |}.
+  {| s_cfg := s_cfg s; s_stop := s_stop s; s_open := s_open s; s_input := s_input s; s_lstop := s_lstop s; s_r := s_r s; s_dq := s_dq s; s_mrecv := s_mrecv s; s_a := s_a s; s_alive := x; s_vs := s_vs s; s_w := s_w s; s_wbuf := s_wbuf s; s_wout := s_wout s; s_iq := s_iq s; s_sq := s_sq s; s_m := s_m s; s_c := s_c s; s_errs := s_errs s; s_fatal := s_fatal s; s_panic := s_panic s; s_sigs := s_sigs s; s_hardexit := s_hardexit s |}.
 Definition set_vs (x : list vst) (s : state) : state :=
-  {| s_cfg := s_cfg s; s_stop := s_stop s; s_open := s_open s; s_input := s_input s; s_lstop := s_lstop s; s_r := s_r s; s_dq := s_dq s; s_mrecv := s_mrecv s; s_a := s_a s; s_alive := s_alive s; s_vs := x; s_w := s_w s; s_wbuf := s_wbuf s; s_wout := s_wout s; s_iq := s_iq s; s_sq := s_sq s; s_m := s_m s; s_c := s_c s; s_errs := s_errs s; s_fatal := s_fatal s; s_panic := s_panic s |}.
+  {| s_cfg := s_cfg s; s_stop := s_stop s; s_open := s_open s; s_input := s_input s; s_lstop := s_lstop s; s_r := s_r s; s_dq := s_dq s; s_mrecv := s_mrecv s; s_a := s_a s; s_alive := s_alive s; s_vs := x; s_w := s_w s; s_wbuf := s_wbuf s; s_wout := s_wout s; s_iq := s_iq s; s_sq := s_sq s; s_m := s_m s; s_c := s_c s; s_errs := s_errs s; s_fatal := s_fatal s; s_panic := s_panic s; s_sigs := s_sigs s; s_hardexit := s_hardexit s |}.
 Definition set_w (x : wpc) (s : state) : state :=
-  {| s_cfg := s_cfg s; s_stop := s_stop s; s_open := s_open s; s_input := s_input s; s_lstop := s_lstop s; s_r := s_r s; s_dq := s_dq s; s_mrecv := s_mrecv s; s_a := s_a s; s_alive := s_alive s; s_vs := s_vs s; s_w := x; s_wbuf := s_wbuf s; s_wout := s_wout s; s_iq := s_iq s; s_sq := s_sq s; s_m := s_m s; s_c := s_c s; s_errs := s_errs s; s_fatal := s_fatal s; s_panic := s_panic s |}.
+  {| s_cfg := s_cfg s; s_stop := s_stop s; s_open := s_open s; s_input := s_input s; s_lstop := s_lstop s; s_r := s_r s; s_dq := s_dq s; s_mrecv := s_mrecv s; s_a := s_a s; s_alive := s_alive s; s_vs := s_vs s; s_w := x; s_wbuf := s_wbuf s; s_wout := s_wout s; s_iq := s_iq s; s_sq := s_sq s; s_m := s_m s; s_c := s_c s; s_errs := s_errs s; s_fatal := s_fatal s; s_panic := s_panic s; s_sigs := s_sigs s; s_hardexit := s_hardexit s |}.
 Definition set_wbuf (x : nat) (s : state) : state :=
-  {| s_cfg := s_cfg s; s_stop := s_stop s; s_open := s_open s; s_input := s_input s; s_lstop := s_lstop s; s_r := s_r s; s_dq := s_dq s; s_mrecv := s_mrecv s; s_a := s_a s; s_alive := s_alive s; s_vs := s_vs s; s_w := s_w s; s_wbuf := x; s_wout := s_wout s; s_iq := s_iq s; s_sq := s_sq s; s_m := s_m s; s_c := s_c s; s_errs := s_errs s; s_fatal := s_fatal s; s_panic := s_panic s |}.
+  {| s_cfg := s_cfg s; s_stop := s_stop s; s_open := s_open s; s_input := s_input s; s_lstop := s_lstop s; s_r := s_r s; s_dq := s_dq s; s_mrecv := s_mrecv s; s_a := s_a s; s_alive := s_alive s; s_vs := s_vs s; s_w := s_w s; s_wbuf := x; s_wout := s_wout s; s_iq := s_iq s; s_sq := s_sq s; s_m := s_m s; s_c := s_c s; s_errs := s_errs s; s_fatal := s_fatal s; s_panic := s_panic s; s_sigs := s_sigs s; s_hardexit := s_hardexit s |}.
 Definition set_wout (x : list nat) (s : state) : state :=
-  {| s_cfg := s_cfg s; s_stop := s_stop s; s_open := s_open s; s_input := s_input s; s_lstop := s_lstop s; s_r := s_r s; s_dq := s_dq s; s_mrecv := s_mrecv s; s_a := s_a s; s_alive := s_alive s; s_vs := s_vs s; s_w := s_w s; s_wbuf := s_wbuf s; s_wout := x; s_iq := s_iq s; s_sq := s_sq s; s_m := s_m s; s_c := s_c s; s_errs := s_errs s; s_fatal := s_fatal s; s_panic := s_panic s |}.
+  {| s_cfg := s_cfg s; s_stop := s_stop s; s_open := s_open s; s_input := s_input s; s_lstop := s_lstop s; s_r := s_r s; s_dq := s_dq s; s_mrecv := s_mrecv s; s_a := s_a s; s_alive := s_alive s; s_vs := s_vs s; s_w := s_w s; s_wbuf := s_wbuf s; s_wout := x; s_iq := s_iq s; s_sq := s_sq s; s_m := s_m s; s_c := s_c s; s_errs := s_errs s; s_fatal := s_fatal s; s_panic := s_panic s; s_sigs := s_sigs s; s_hardexit := s_hardexit s |}.
 Definition set_iq (x : list skind) (s : state) : state :=
-  {| s_cfg := s_cfg s; s_stop := s_stop s; s_open := s_open s; s_input := s_input s; s_lstop := s_lstop s; s_r := s_r s; s_dq := s_dq s; s_mrecv := s_mrecv s; s_a := s_a s; s_alive := s_alive s; s_vs := s_vs s; s_w := s_w s; s_wbuf := s_wbuf s; s_wout := s_wout s; s_iq := x; s_sq := s_sq s; s_m := s_m s; s_c := s_c s; s_errs := s_errs s; s_fatal := s_fatal s; s_panic := s_panic s |}.
+  {| s_cfg := s_cfg s; s_stop := s_stop s; s_open := s_open s; s_input := s_input s; s_lstop := s_lstop s; s_r := s_r s; s_dq := s_dq s; s_mrecv := s_mrecv s; s_a := s_a s; s_alive := s_alive s; s_vs := s_vs s; s_w := s_w s; s_wbuf := s_wbuf s; s_wout := s_wout s; s_iq := x; s_sq := s_sq s; s_m := s_m s; s_c := s_c s; s_errs := s_errs s; s_fatal := s_fatal s; s_panic := s_panic s; s_sigs := s_sigs s; s_hardexit := s_hardexit s |}.
 Definition set_sq (x : list skind) (s : state) : state :=
-  {| s_cfg := s_cfg s; s_stop := s_stop s; s_open := s_open s; s_input := s_input s; s_lstop := s_lstop s; s_r := s_r s; s_dq := s_dq s; s_mrecv := s_mrecv s; s_a := s_a s; s_alive := s_alive s; s_vs := s_vs s; s_w := s_w s; s_wbuf := s_wbuf s; s_wout := s_wout s; s_iq := s_iq s; s_sq := x; s_m := s_m s; s_c := s_c s; s_errs := s_errs s; s_fatal := s_fatal s; s_panic := s_panic s |}.
+  {| s_cfg := s_cfg s; s_stop := s_stop s; s_open := s_open s; s_input := s_input s; s_lstop := s_lstop s; s_r := s_r s; s_dq := s_dq s; s_mrecv := s_mrecv s; s_a := s_a s; s_alive := s_alive s; s_vs := s_vs s; s_w := s_w s; s_wbuf := s_wbuf s; s_wout := s_wout s; s_iq := s_iq s; s_sq := x; s_m := s_m s; s_c := s_c s; s_errs := s_errs s; s_fatal := s_fatal s; s_panic := s_panic s; s_sigs := s_sigs s; s_hardexit := s_hardexit s |}.
 Definition set_m (x : mpc) (s : state) : state :=
-  {| s_cfg := s_cfg s; s_stop := s_stop s; s_open := s_open s; s_input := s_input s; s_lstop := s_lstop s; s_r := s_r s; s_dq := s_dq s; s_mrecv := s_mrecv s; s_a := s_a s; s_alive := s_alive s; s_vs := s_vs s; s_w := s_w s; s_wbuf := s_wbuf s; s_wout := s_wout s; s_iq := s_iq s; s_sq := s_sq s; s_m := x; s_c := s_c s; s_errs := s_errs s; s_fatal := s_fatal s; s_panic := s_panic s |}.
+  {| s_cfg := s_cfg s; s_stop := s_stop s; s_open := s_open s; s_input := s_input s; s_lstop := s_lstop s; s_r := s_r s; s_dq := s_dq s; s_mrecv := s_mrecv s; s_a := s_a s; s_alive := s_alive s; s_vs := s_vs s; s_w := s_w s; s_wbuf := s_wbuf s; s_wout := s_wout s; s_iq := s_iq s; s_sq := s_sq s; s_m := x; s_c := s_c s; s_errs := s_errs s; s_fatal := s_fatal s; s_panic := s_panic s; s_sigs := s_sigs s; s_hardexit := s_hardexit s |}.
 Definition set_c (x : cpc) (s : state) : state :=
-  {| s_cfg := s_cfg s; s_stop := s_stop s; s_open := s_open s; s_input := s_input s; s_lstop := s_lstop s; s_r := s_r s; s_dq := s_dq s; s_mrecv := s_mrecv s; s_a := s_a s; s_alive := s_alive s; s_vs := s_vs s; s_w := s_w s; s_wbuf := s_wbuf s; s_wout := s_wout s; s_iq := s_iq s; s_sq := s_sq s; s_m := s_m s; s_c := x; s_errs := s_errs s; s_fatal := s_fatal s; s_panic := s_panic s |}.
+  {| s_cfg := s_cfg s; s_stop := s_stop s; s_open := s_open s; s_input := s_input s; s_lstop := s_lstop s; s_r := s_r s; s_dq := s_dq s; s_mrecv := s_mrecv s; s_a := s_a s; s_alive := s_alive s; s_vs := s_vs s; s_w := s_w s; s_wbuf := s_wbuf s; s_wout := s_wout s; s_iq := s_iq s; s_sq := s_sq s; s_m := s_m s; s_c := x; s_errs := s_errs s; s_fatal := s_fatal s; s_panic := s_panic s; s_sigs := s_sigs s; s_hardexit := s_hardexit s |}.
 Definition set_errs (x : nat) (s : state) : state :=
-  {| s_cfg := s_cfg s; s_stop := s_stop s; s_open := s_open s; s_input := s_input s; s_lstop := s_lstop s; s_r := s_r s; s_dq := s_dq s; s_mrecv := s_mrecv s; s_a := s_a s; s_alive := s_alive s; s_vs := s_vs s; s_w := s_w s; s_wbuf := s_wbuf s; s_wout := s_wout s; s_iq := s_iq s; s_sq := s_sq s; s_m := s_m s; s_c := s_c s; s_errs := x; s_fatal := s_fatal s; s_panic := s_panic s |}.
+  {| s_cfg := s_cfg s; s_stop := s_stop s; s_open := s_open s; s_input := s_input s; s_lstop := s_lstop s; s_r := s_r s; s_dq := s_dq s; s_mrecv := s_mrecv s; s_a := s_a s; s_alive := s_alive s; s_vs := s_vs s; s_w := s_w s; s_wbuf := s_wbuf s; s_wout := s_wout s; s_iq := s_iq s; s_sq := s_sq s; s_m := s_m s; s_c := s_c s; s_errs := x; s_fatal := s_fatal s; s_panic := s_panic s; s_sigs := s_sigs s; s_hardexit := s_hardexit s |}.
 Definition set_fatal (x : bool) (s : state) : state :=
-  {| s_cfg := s_cfg s; s_stop := s_stop s; s_open := s_open s; s_input := s_input s; s_lstop := s_lstop s; s_r := s_r s; s_dq := s_dq s; s_mrecv := s_mrecv s; s_a := s_a s; s_alive := s_alive s; s_vs := s_vs s; s_w := s_w s; s_wbuf := s_wbuf s; s_wout := s_wout s; s_iq := s_iq s; s_sq := s_sq s; s_m := s_m s; s_c := s_c s; s_errs := s_errs s; s_fatal := x; s_panic := s_panic s |}.
+  {| s_cfg := s_cfg s; s_stop := s_stop s; s_open := s_open s; s_input := s_input s; s_lstop := s_lstop s; s_r := s_r s; s_dq := s_dq s; s_mrecv := s_mrecv s; s_a := s_a s; s_alive := s_alive s; s_vs := s_vs s; s_w := s_w s; s_wbuf := s_wbuf s; s_wout := s_wout s; s_iq := s_iq s; s_sq := s_sq s; s_m := s_m s; s_c := s_c s; s_errs := s_errs s; s_fatal := x; s_panic := s_panic s; s_sigs := s_sigs s; s_hardexit := s_hardexit s |}.
 Definition set_panic (x : bool) (s : state) : state :=
-  {| s_cfg := s_cfg s; s_stop := s_stop s; s_open := s_open s; s_input := s_input s; s_lstop := s_lstop s; s_r := s_r s; s_dq := s_dq s; s_mrecv := s_mrecv s; s_a := s_a s; s_alive := s_alive s; s_vs := s_vs s; s_w := s_w s; s_wbuf := s_wbuf s; s_wout := s_wout s; s_iq := s_iq s; s_sq := s_sq s; s_m := s_m s; s_c := s_c s; s_errs := s_errs s; s_fatal := s_fatal s; s_panic := x |}.
+  {| s_cfg := s_cfg s; s_stop := s_stop s; s_open := s_open s; s_input := s_input s; s_lstop := s_lstop s; s_r := s_r s; s_dq := s_dq s; s_mrecv := s_mrecv s; s_a := s_a s; s_alive := s_alive s; s_vs := s_vs s; s_w := s_w s; s_wbuf := s_wbuf s; s_wout := s_wout s; s_iq := s_iq s; s_sq := s_sq s; s_m := s_m s; s_c := s_c s; s_errs := s_errs s; s_fatal := s_fatal s; s_panic := x; s_sigs := s_sigs s; s_hardexit := s_hardexit s |}.
+Definition set_sigs (x : nat) (s : state) : state :=
+  {| s_cfg := s_cfg s; s_stop := s_stop s; s_open := s_open s; s_input := s_input s; s_lstop := s_lstop s; s_r := s_r s; s_dq := s_dq s; s_mrecv := s_mrecv s; s_a := s_a s; s_alive := s_alive s; s_vs := s_vs s; s_w := s_w s; s_wbuf := s_wbuf s; s_wout := s_wout s; s_iq := s_iq s; s_sq := s_sq s; s_m := s_m s; s_c := s_c s; s_errs := s_errs s; s_fatal := s_fatal s; s_panic := s_panic s; s_sigs := x; s_hardexit := s_hardexit s |}.
+Definition set_hardexit (x : bool) (s : state) : state :=
+  {| s_cfg := s_cfg s; s_stop := s_stop s; s_open := s_open s; s_input := s_input s; s_lstop := s_lstop s; s_r := s_r s; s_dq := s_dq s; s_mrecv := s_mrecv s; s_a := s_a s; s_alive := s_alive s; s_vs := s_vs s; s_w := s_w s; s_wbuf := s_wbuf s; s_wout := s_wout s; s_iq := s_iq s; s_sq := s_sq s; s_m := s_m s; s_c := s_c s; s_errs := s_errs s; s_fatal := s_fatal s; s_panic := s_panic s; s_sigs := s_sigs s; s_hardexit := x |}.
 
 Inductive label :=
-| L_stop                          (* signal handler stores the stop flag *)
+| L_stop                          (* a signal is delivered: the handler runs (at most one signal: a second one is
+                                     documented as an ungraceful shutdown and is outside the property) *)
 | L_close                         (* the reader of stdout goes away *)
 | L_reader
 | L_main
@@ -286,9 +295,12 @@ Definition step_ctrl (f : pfacts) (s : state) : option state :=
   end.
 
 Definition step (f : pfacts) (l : label) (s : state) : option state :=
-  if s_panic s then None else
+  if s_panic s then None else if s_hardexit s then None else
   match l with
-  | L_stop => if s_stop s then None else Some (set_stop true s)
+  | L_stop => if 1 <=? s_sigs s then None
+              else if s_stop s && negb (pf_handler_own_counter f)
+                   then Some (set_hardexit true (set_sigs 1 s))     (* process::exit with the workers still running *)
+                   else Some (set_sigs 1 (set_stop true s))
   | L_close => if s_open s then Some (set_open false s) else None
   | L_reader => step_reader f s
   | L_main => step_main f s
@@ -313,10 +325,11 @@ Definition init (c : cfg) (input : list batch) : state :=
      s_w := match c_mode c with Mwrite => W_recv | _ => W_absent end;
      s_wbuf := 0; s_wout := [];
      s_iq := []; s_sq := [K_other];     (* the RDH version message of init_processing *)
-     s_m := M_droprecv; s_c := C_recv; s_errs := 0; s_fatal := false; s_panic := false |}.
+     s_m := M_droprecv; s_c := C_recv; s_errs := 0; s_fatal := false; s_panic := false;
+     s_sigs := 0; s_hardexit := false |}.
 
 Definition final (s : state) : bool :=
-  s_panic s || match s_m s with M_exit => true | _ => false end.
+  s_panic s || s_hardexit s || match s_m s with M_exit => true | _ => false end.
 
 (* labels worth trying in a state (for searching: every enabled step is among them) *)
 Definition candidate_labels (s : state) : list label :=
@@ -355,7 +368,8 @@ Definition w_input (f : pfacts) (s : state) : nat :=
 Definition mu (f : pfacts) (s : state) : nat :=
   w_input f s + pcw_r (s_r s) + sum_w wb (s_dq s) + pcw_a (s_a s) + sum_w wv (s_vs s)
   + pcw_w (s_w s) + 2 * length (s_iq s) + length (s_sq s) + pcw_m (s_m s) + pcw_c (s_c s)
-  + (if s_stop s then 0 else 1) + (if s_open s then 1 else 0) + (if s_panic s then 0 else 1).
+  + (if s_stop s then 0 else 1) + (if s_open s then 1 else 0) + (if s_panic s then 0 else 1)
+  + (1 - s_sigs s) + (if s_hardexit s then 0 else 1).
 
 (* a scheduler that always takes the first enabled candidate (used for witnesses and for searching) *)
 Fixpoint greedy (f : pfacts) (fuel : nat) (s : state) : list label :=
